@@ -33,13 +33,15 @@ def render_tree(t):
     return s + ")"
 
 
-def generate(family, maxw, nshards, wd, timeout=1500, nosimp=False, light=False):
+def generate(family, maxw, nshards, wd, timeout=1500, nosimp=False, light=False, twin=None):
     """Run NSHARDS TLC processes enumerating programs of FAMILY up to weight MAXW."""
+    if twin is None:
+        twin = family == "refeed"
     def one(sh):
         out = os.path.join(wd, "vec-%s-%d.ndjson" % (family, sh))
         r = tlc.run_tlc("Progs", constants={"MaxW": maxw, "Shard": sh, "NShards": nshards,
                                              "OutFile": out, "Family": family,
-                                             "PinnedMerge": False, "WithNoSimp": nosimp, "Light": light},
+                                             "PinnedMerge": False, "WithNoSimp": nosimp, "Light": light, "WithTwin": twin},
                         workers=1, timeout=timeout, heap="6g")
         return (sh, out, r)
     res = common.parallel(one, list(range(nshards)), workers=nshards)
